@@ -1332,7 +1332,7 @@ class QvmCpu:
             length = length.value
 
         if length is None:
-            length = len(string) - start + 1
+            length = max(len(string) - start + 1, 0)
 
         if length < 0:
             self.trap(TrapCode.INVALID_OPERAND_VALUE,
